@@ -118,7 +118,9 @@ COND_LIST = ["s:a>1", "s:fD(a)>1", "e3:y==0"]
 
 def bounds(tier):
     return {"k": 3 if tier == "quick" else 4, "atoms": len(ATOMS), "call_atoms": len(CALL_ATOMS),
-            "conds": len(COND_LIST), "faults_per_run": 1 if tier == "quick" else 2,
+            "conds": len(COND_LIST),
+            "faults_per_run": "1" if tier == "quick" else "1 for all bodies; 2 for bodies with <= 2 items (second fault at "
+            "every invocation of 3 resumed steps after a first fault in the first execution of main)",
             "faulted_step": "1st and 2nd execution of main", "resume_steps": 3, "inputs": 2}
 
 
@@ -403,7 +405,76 @@ def check_description(shape, acc=None, second_fault=False):
                     r = run_fault(be, phases, inp, steps, si, cname, occ, allowed, acc)
                     if r is not None and not any(f[0] == r[0] for f in fails):
                         fails.append(r)
+                    if r is None and second_fault and si == 1:
+                        r2, n2 = run_second_faults(be, inp, steps, si, cname, occ, acc)
+                        nfaults += n2
+                        if r2 is not None and not any(f[0] == r2[0] for f in fails):
+                            fails.append(r2)
     return fails, nfaults
+
+
+def _after_first_fault(be, inp, steps, si, cname, occ):
+    sites = new_sites()
+    sites["<func>" + cname].fail_at = steps[si]["before"]["<func>" + cname] + occ
+    st, _, _ = run_until_fault(be, sites, inp, len(steps))
+    return st
+
+
+def run_second_faults(be, inp, steps, si, cname, occ, acc):
+    """deviation bound 2: after the first fault, every invocation of every site during 3 resumed steps fails in turn.
+    Checked: exception identity, no visible temporaries, resumption equals a fresh stepper (the allowed-values
+    clause needs step boundaries of the reference and is checked for the first fault only)."""
+    st = _after_first_fault(be, inp, steps, si, cname, occ)
+    log_sites = new_sites()
+    _swap_functions(be, st, log_sites)
+    observe_resume(be, st, 3)
+    n = 0
+    for fname, site in sorted(log_sites.items()):
+        for k in range(1, site.count + 1):
+            n += 1
+            st = _after_first_fault(be, inp, steps, si, cname, occ)
+            sites2 = new_sites()
+            sites2[fname].fail_at = k
+            _swap_functions(be, st, sites2)
+            exc = None
+            try:
+                cnt = 0
+                for ev in st.run(max_steps=3):
+                    cnt += 1
+                    if cnt > 40:
+                        break
+            except Exception as e:
+                exc = e
+            if acc is not None:
+                acc.evaluations += 1
+                acc.count("second_fault_runs")
+            where = "backend=%s input y=%s first fault %s#%d in step %d, second fault %s call %d of the resumed run" % (
+                be.name, inp["state"]["y"], cname, occ, si + 1, fname, k)
+            inj = sites2[fname].injected
+            if exc is None:
+                if inj is None:
+                    continue        # the resumed run with this prefix did not reach the call (horizon)
+                return ("exception-swallowed(%s)" % be.name, "%s: the injected exception never reached the caller" % where), n
+            if exc is not inj:
+                return ("exception-identity(%s)" % be.name, "%s: caller received %s: %s" % (
+                    where, type(exc).__name__, str(exc)[:200])), n
+            temps = be.visible_temporaries(st)
+            if temps:
+                return ("temporary-visible(%s)" % be.name, "%s: the stepper still holds %s" % (where, temps)), n
+            fresh = be.new(new_sites())
+            if isinstance(be, GenBackend):
+                fresh.set_up(t_start=0, dt_start=0, context={})
+                for kk in list(fresh.__dict__):
+                    if kk.startswith("global_"):
+                        del fresh.__dict__[kk]
+            be.clone_state_into(st, fresh)
+            _swap_functions(be, st, new_sites())
+            o1 = observe_resume(be, st, 3)
+            o2 = observe_resume(be, fresh, 3)
+            if o1 != o2:
+                return ("resume-differs(%s)" % be.name, "%s: continuing gives %s, a fresh stepper %s" % (
+                    where, json.dumps(o1)[:300], json.dumps(o2)[:300])), n
+    return None, n
 
 
 def run_fault(be, phases, inp, steps, si, cname, occ, allowed, acc):
@@ -525,7 +596,7 @@ def run_shard(desc, acc):
         if acc.out_of_time():
             acc.cap("time cap in shard %r" % desc)
             return
-        r, nf = check_description(shape, acc)
+        r, nf = check_description(shape, acc, second_fault=(desc["tier"] == "thorough" and len(shape) <= 2))
         if r == "excluded":
             acc.excluded += 1
             continue
